@@ -128,7 +128,7 @@ Lemma subst_dollar_dword W (cmd0 c : str) f :
   subst_dollar (S (S f)) W [(TNone, cmd0); (TNone, dword c)] []
   = Ok ([(TNone, cmd0); (TNone, trim (oracle_out W c))], [c]).
 Proof.
-  intros H0 Hne H41 H10 Hx Ho. unfold subst_dollar.
+  intros H0 Hne H41 H10 Hx Ho. rewrite subst_dollar_eq.
   cbn [dollar_pass tag_eqb orb].
   rewrite (should_do_dollar_false cmd0 H0). cbn [negb].
   rewrite (should_do_dword c Hne H41 Hx). cbn [negb].
